@@ -11,8 +11,14 @@ RTYPES = ["Int - n", "Int 32 c", "Qubit", "Float 64 n", "Gate 1 2", "HardwareQub
 RNAMES = ["a", "b", "pi", "U", "$0", "cx"]
 
 
+def strip_ctor(line):
+    w = line.split(";", 1)
+    return (w[1].strip() if len(w) > 1 else "") if w[0].strip() == "D" else line
+
+
 def spec_run(line):
     """Specification: a stack of maps plus an append-only log.  Returns the expected output line."""
+    line = strip_ctor(line)
     allsyms = list(BUILTINS)
     stack = [("g", {n: i for i, (n, _) in enumerate(BUILTINS)})]
     outs = []
@@ -89,6 +95,11 @@ def gen_cases(ctx):
             else:
                 ops.append("C")
         cases.append(" ; ".join(ops))
+    # the same table must come out of every public constructor: a sample of the histories is replayed on
+    # `SymbolTable::default()` (leading `D`, understood by the harness only; the model and the specification
+    # have one initial state and see the history without it)
+    step = 7 if ctx.tier == "quick" else 3
+    cases += ["D ; " + c if c else "D" for c in cases[::step]]
     return cases, nexh
 
 
@@ -104,7 +115,7 @@ def check(ctx):
     ctx.log(f"{len(cases)} histories ({nexh} bounded-exhaustive)")
     impl = C.run_impl(ctx, "symtab", cases)
     have_model = ctx.lake_ok
-    model = C.run_model(ctx, "symtab", cases) if have_model else [None] * len(cases)
+    model = C.run_model(ctx, "symtab", [strip_ctor(c) for c in cases]) if have_model else [None] * len(cases)
     ctx.log("spec oracle")
     chunks = [cases[i:i + 20000] for i in range(0, len(cases), 20000)]
     with ProcessPoolExecutor(max_workers=C.NPROC) as ex:
@@ -126,7 +137,7 @@ def check(ctx):
     C.decide(ctx, failures, C.load_findings("C19"))
     ctx.coverage.update({
         "evaluations": len(cases), "distinct_nontrivial": nontriv,
-        "rule": f"all histories of length <= {6 if ctx.tier=='quick' else 7} over the 9 operations of the quantifier (bounded-exhaustive) plus random histories up to length 200 over 6 names/10 types incl. lookup_or_new_binding, len_current_scope, calibration and (panicking) global scope entry; non-trivial = at least one successful binding and one successful look-up",
+        "rule": f"all histories of length <= {6 if ctx.tier=='quick' else 7} over the 9 operations of the quantifier (bounded-exhaustive) plus random histories up to length 200 over 6 names/10 types incl. lookup_or_new_binding, len_current_scope, calibration and (panicking) global scope entry; a sample replayed on a table built by Default::default() instead of new(); non-trivial = at least one successful binding and one successful look-up",
         "exhaustive": True, "exhaustive_histories": nexh,
         "traces_validated_against_impl": len(cases) if have_model else 0,
         "correspondence_disagreements": ndis, "oracle_failures_total": len(failures),
